@@ -111,7 +111,9 @@ class Distribution(Generic[R], GenerativeFunction[R]):
         """A constrained value takes the dtype of what the distribution samples: the two arms of a
         flag-dependent `cond` (use the constraint / keep a sampled value) must agree on it, as
         the unmasked path does by promotion."""
-        return jtu.tree_map(lambda v, p: jnp.asarray(v, dtype=p.dtype), value, proto)
+        return jtu.tree_map(
+            lambda v, p: jnp.asarray(v, dtype=jnp.result_type(p)), value, proto
+        )
 
     def simulate(
         self,
